@@ -83,6 +83,29 @@ fn containers(seed: u64, tier: Tier) -> Vec<(String, Logical)> {
     }
     out.push(mk(format!("c12-loose-p{many}"), Packaging::Loose, many, Comp::None, &mut k));
     out.push(mk(format!("c12-concat-p{many}"), Packaging::Concat, many, Comp::None, &mut k));
+    // a pack-info table that crosses 64 KiB (the chunk in which the manifest's global check reads
+    // it): exactly one slot straddles the boundary, and histories are biased towards it
+    out.push(mk("c12-loose-p300".into(), Packaging::Loose, 300, Comp::None, &mut k));
+    // the directory pack need not be the first pack the manifest lists, pack ids need not be
+    // contiguous, and content packs need not be listed by id
+    for (name, packaging, packs, absent, shuffle) in [
+        ("c12-loose-p3-dir-not-first", Packaging::Loose, 3u16, 0u32, false),
+        ("c12-concat-p2-dir-not-first", Packaging::Concat, 2, 0, true),
+        ("c12-loose-p5-sparse-ids-dir-not-first", Packaging::Loose, 5, 0b01010, true),
+        ("c12-concat-p4-sparse-ids", Packaging::Concat, 4, 0b0110, false),
+    ] {
+        let (n, mut l) = mk(name.into(), packaging, packs, Comp::None, &mut k);
+        // contents of absent packs move to pack 1
+        for c in l.contents.iter_mut() {
+            if absent & (1 << (c.pack - 1)) != 0 {
+                c.pack = 1;
+            }
+        }
+        l.opts.absent_ids = absent;
+        l.opts.dir_not_first = name.contains("dir-not-first");
+        l.opts.shuffle_manifest = shuffle;
+        out.push((n, l));
+    }
     out
 }
 
@@ -140,11 +163,15 @@ fn gen_location(rng: &mut Rng) -> String {
     s
 }
 
-fn gen_history(rng: &mut Rng, n_listed: usize, tier: Tier) -> Vec<Op> {
+fn gen_history(rng: &mut Rng, n_listed: usize, tier: Tier, boundary: &[usize]) -> Vec<Op> {
     let len = rng.range(1, if tier == Tier::Quick { 10 } else { 16 }) as usize;
     let mut ops = vec![];
     // bias towards the same pack rewritten several times (long then short), and the last slot
-    let hot = if rng.chance(1, 3) { n_listed - 1 } else { rng.usize_below(n_listed) };
+    let mut hot = if rng.chance(1, 3) { n_listed - 1 } else { rng.usize_below(n_listed) };
+    if !boundary.is_empty() && rng.chance(1, 2) {
+        // a pack whose description straddles a 64 KiB boundary of the manifest
+        hot = *rng.pick(boundary);
+    }
     for _ in 0..len {
         match rng.below(10) {
             0 => ops.push(Op::SetUnknown {
@@ -246,6 +273,49 @@ struct Image {
     one_file: bool,
 }
 
+/// Where each pack description (in the reader's order: directory pack first, then the content
+/// packs as `get_pack_infos` lists them) sits on disk: index into the scanner's slot list.
+fn slots_of(bytes: &[u8], mspan: &layout::PackSpan, model: &[SlotInfo]) -> Vec<usize> {
+    model
+        .iter()
+        .map(|m| {
+            mspan
+                .info_slots
+                .iter()
+                .position(|s| {
+                    let a = (mspan.start + s) as usize;
+                    bytes.get(a..a + 16) == Some(&m.uuid.as_bytes()[..])
+                })
+                .unwrap_or_else(|| simcore::harness_error("C12: a listed pack has no slot the scanner can find"))
+        })
+        .collect()
+}
+
+/// Model indices of the packs whose 256-byte description contains a multiple of 64 KiB
+/// (relative to the start of the manifest pack).
+fn boundary_packs(img: &Image) -> Vec<usize> {
+    let bytes = &img.files[0].1;
+    let spans = layout::scan_file(bytes);
+    let Some(mspan) = spans.iter().find(|s| s.kind == b'm') else { return vec![] };
+    if mspan.size < 65536 {
+        return vec![];
+    }
+    // the reader's order, from the manifest itself
+    let dir = std::env::temp_dir().join(format!("c12-boundary-{}", std::process::id()));
+    let _ = std::fs::create_dir_all(&dir);
+    let f = dir.join(&img.files[0].0);
+    std::fs::write(&f, bytes).unwrap();
+    let model = read_manifest(&f).map(|x| x.0).unwrap_or_default();
+    let _ = std::fs::remove_dir_all(&dir);
+    let slot_of = slots_of(bytes, mspan, &model);
+    (0..model.len())
+        .filter(|p| {
+            let a = mspan.info_slots[slot_of[*p]];
+            a / 65536 != (a + 255) / 65536
+        })
+        .collect()
+}
+
 fn run_history(dir: &Path, img: &Image, ops: &[Op]) -> (Vec<String>, usize) {
     let mut bad = vec![];
     let _ = std::fs::remove_dir_all(dir);
@@ -272,6 +342,7 @@ fn run_history(dir: &Path, img: &Image, ops: &[Op]) -> (Vec<String>, usize) {
         .find(|s| s.kind == b'm')
         .unwrap_or_else(|| simcore::harness_error("C12: scanner finds no manifest"))
         .clone();
+    let slot_of = slots_of(&bytes0, &mspan, &model);
     let mut prev = bytes0;
     let mut steps = 0;
     // a handle opened before any rewrite: a manifest parsed afresh through it must read what is
@@ -416,7 +487,7 @@ fn run_history(dir: &Path, img: &Image, ops: &[Op]) -> (Vec<String>, usize) {
                     }
                 }
                 Some(p) => {
-                    let slot = (mspan.start + mspan.info_slots[p]) as usize;
+                    let slot = (mspan.start + mspan.info_slots[slot_of[p]]) as usize;
                     if let Some(out) = changed.iter().find(|i| **i < slot || **i >= slot + 256) {
                         bad.push(format!(
                             "{step}: byte {out} changed outside the pack-info block [{slot}, {})",
@@ -570,12 +641,13 @@ pub fn worker_main(args: &Args, w: usize, n: usize) -> ! {
         }
         let dir = scratch.sub(&format!("img{ii}"));
         let img = load_image(&hooks, args.seed, &name, &logical, &dir);
-        let n_listed = logical.n_packs as usize + 1;
-        // the very large manifest gets fewer histories (every step re-reads ~0.5 MB)
-        let total = if n_listed > 1000 { 160 } else { histories_per_image(args.tier) };
+        let n_listed = logical.n_packs as usize + 1 - logical.opts.absent_ids.count_ones() as usize;
+        let boundary = boundary_packs(&img);
+        // the very large manifests get fewer histories (every step re-reads the whole manifest)
+        let total = if n_listed > 1000 { 160 } else if n_listed > 200 { histories_per_image(args.tier).min(160) } else { histories_per_image(args.tier) };
         println!(
             "{}",
-            json!({"t":"image","ii":ii,"image":img.name,"desc":img.desc,"histories":total,"listed_packs":n_listed,
+            json!({"t":"image","ii":ii,"image":img.name,"desc":img.desc,"histories":total,"listed_packs":n_listed,"packs_straddling_64KiB":boundary,
                    "file_bytes": img.files[0].1.len(), "one_file": img.one_file})
         );
         let lo = total * w as u64 / n as u64;
@@ -586,7 +658,7 @@ pub fn worker_main(args: &Args, w: usize, n: usize) -> ! {
             // every other history runs with seeded short reads on jubako's reader-side streams
             hooks.set_short_reads(if h % 2 == 1 { 300 } else { 0 }, h);
             let mut rng = Rng::derive(args.seed, &format!("c12-history-{name}"), h);
-            let ops = gen_history(&mut rng, n_listed, args.tier);
+            let ops = gen_history(&mut rng, n_listed, args.tier, &boundary);
             let r = std::panic::catch_unwind(std::panic::AssertUnwindSafe(|| run_history(&case_dir, &img, &ops)));
             let (bad, steps) = match r {
                 Ok(x) => x,
